@@ -88,7 +88,7 @@ def main():
          "engines": [{"name": "coq-proof+correspondence", "path": "/verif/check", "serves_properties": [c["property_id"] for c in checks],
                       "kind_free_text": "Coq 8.16.1 development (coq/), extracted OCaml oracle (oracle/), Python differential harness (harness/), Python-AST->Gallina translator (tools/translate.py)"}],
          "checks": checks,
-         "notes": "47 `fix:` commits in /repo repair the genuine defects found (F1-F39, known_findings.json, status fixed); one design-level defect (lazy-view aliasing, C10) is a known finding.",
+         "notes": "49 `fix:` commits in /repo repair the genuine defects found (F1-F41, known_findings.json, status fixed); one design-level defect (lazy-view aliasing, C10) is a known finding.",
          "not_applicable": notapp}
     (ROOT / "MANIFEST.json").write_text(json.dumps(m, indent=1) + "\n")
     print("MANIFEST.json:", len(checks), "checks;", len(notapp), "not applicable")
